@@ -106,6 +106,12 @@ def run(ck):
         o = f.origins(0, deep=True)
         ck.ob("RET", f.path, "verdict", has_call_origin(o, r"sigma_protocols::common::verify$"), "the verdict is the sigma verification", f.loc())
 
+    # zips of statement data with proof data need a length check
+    c = crate("rs", CB)
+    nz = zip_length_sweep(ck, c, re.compile(r"concordium_base::id::(chain|identity_provider|utils|identity_attributes_credentials)::"),
+                          re.compile(r"(verify|verifier|validate|check)[a-z_0-9]*(::\{closure#\d+\})*$"))
+    ck.floor("CMP", "statement/proof zips in credential and request verification", nz, 4)
+
     # c. the signed message covers the credential
     f = getfn(ck, "rs", CB, I + "utils::credential_hash_to_sign")
     if f:
